@@ -393,30 +393,33 @@ fn one_case(rep: &mut Report, drv: &mut Driver, src: &str, ret: Ret, origin: &st
     one_case_glue(rep, drv, src, ret, origin, None)
 }
 
-/// The generated drop functions in the LIR of `src`, canonically: per function the list (one
-/// entry per variant block, or one for a record) of `offset/kind` of every drop it performs,
-/// `r` = a runtime drop function, `g` = a call of another generated drop function.
-fn lir_drop_functions(src: &str) -> Result<Vec<Vec<String>>, String> {
+/// The generated drop and clone functions in the LIR of `src`, canonically: per function the
+/// list (one entry per variant block, or one for a record) of what it performs.
+/// drop: `offset/kind`, `r` = a runtime drop function, `g` = a call of another generated drop
+/// function. clone: `v<src>>r<dst>/kind` and `v<src>>r<dst>#<bytes>` for a memcpy, where `v` is
+/// an offset from the source (`val`) and `r` one from the destination (`$return`).
+fn lir_glue_functions(src: &str) -> Result<(Vec<Vec<String>>, Vec<Vec<String>>), String> {
     let rt = runtime();
     let text = roto::verif_hooks::core::lower_to_mir(FileTree::test_file("c03.roto", src, 0), &rt)
         .map_err(|e| format!("{e}"))?
         .lower_to_lir()
         .text();
-    let mut out: Vec<Vec<String>> = vec![];
-    let mut cur: Option<(Vec<String>, std::collections::HashMap<String, u64>, bool)> = None;
+    let (mut drops, mut clones): (Vec<Vec<String>>, Vec<Vec<String>>) = (vec![], vec![]);
+    // (blocks, pointer variables, has a switch, is a clone function)
+    let mut cur: Option<(Vec<String>, std::collections::HashMap<String, String>, bool, bool)> = None;
     for line in text.lines() {
         let l = line.trim();
-        if l.starts_with("fn ::generated::drop_") {
-            cur = Some((vec![], Default::default(), false));
+        if l.starts_with("fn ::generated::drop_") || l.starts_with("fn ::generated::clone_") {
+            cur = Some((vec![], Default::default(), false, l.starts_with("fn ::generated::clone_")));
             continue;
         }
-        let Some((blocks, offs, is_enum)) = cur.as_mut() else { continue };
+        let Some((blocks, ptrs, is_enum, is_clone)) = cur.as_mut() else { continue };
         if l == "}" {
-            let (mut blocks, _, is_enum) = cur.take().unwrap();
+            let (mut blocks, _, is_enum, is_clone) = cur.take().unwrap();
             if is_enum && !blocks.is_empty() {
                 blocks.remove(0); // the block holding the switch
             }
-            out.push(blocks);
+            if is_clone { clones.push(blocks) } else { drops.push(blocks) }
             continue;
         }
         if l.starts_with('.') {
@@ -427,29 +430,58 @@ fn lir_drop_functions(src: &str) -> Result<Vec<Vec<String>>, String> {
             *is_enum = true;
             continue;
         }
-        let ptr = |offs: &std::collections::HashMap<String, u64>, v: &str| -> Option<u64> {
-            if v == "val" { Some(0) } else { offs.get(v).copied() }
-        };
-        if let Some((lhs, rhs)) = l.split_once(" = ptr::offset(val, ") {
-            if let Ok(o) = rhs.trim_end_matches(')').parse::<u64>() {
-                offs.insert(lhs.trim().to_string(), o);
+        let clone_fn = *is_clone;
+        let ptr = |ptrs: &std::collections::HashMap<String, String>, v: &str| -> String {
+            match v {
+                "val" => if clone_fn { "v0".into() } else { "0".into() },
+                "$return" => "r0".into(),
+                _ => ptrs.get(v).cloned().unwrap_or_else(|| format!("?{v}")),
             }
+        };
+        let mut push = |e: String| {
+            if let Some(b) = blocks.last_mut() {
+                if !b.is_empty() {
+                    b.push(' ');
+                }
+                b.push_str(&e);
+            }
+        };
+        if let Some((lhs, rhs)) = l.split_once(" = ptr::offset(") {
+            let mut it = rhs.trim_end_matches(')').split(',').map(|x| x.trim());
+            let (base, off) = (it.next().unwrap_or(""), it.next().unwrap_or(""));
+            let p = match base {
+                "val" => if clone_fn { format!("v{off}") } else { off.to_string() },
+                "$return" => format!("r{off}"),
+                o => format!("?{o}+{off}"),
+            };
+            ptrs.insert(lhs.trim().to_string(), p);
         } else if let Some(r) = l.strip_prefix("mem::drop(") {
             let v = r.split(',').next().unwrap_or("").trim();
-            let e = match ptr(offs, v) { Some(o) => format!("{o}/r"), None => format!("?{v}/r") };
-            if let Some(b) = blocks.last_mut() { if !b.is_empty() { b.push(' '); } b.push_str(&e); }
+            push(format!("{}/r", ptr(ptrs, v)));
         } else if let Some(r) = l.strip_prefix("::generated::drop_") {
             let v = r.split('(').nth(1).unwrap_or("").trim_end_matches(')').trim();
-            let e = match ptr(offs, v) { Some(o) => format!("{o}/g"), None => format!("?{v}/g") };
-            if let Some(b) = blocks.last_mut() { if !b.is_empty() { b.push(' '); } b.push_str(&e); }
-        } else if l.starts_with("return") || l.contains(": ") || l.is_empty() || l.contains("mem::read(") {
-        } else if let Some(b) = blocks.last_mut() {
-            // anything else inside a drop function is outside the model
-            if !b.is_empty() { b.push(' '); }
-            b.push_str(&format!("?{l}"));
+            push(format!("{}/g", ptr(ptrs, v)));
+        } else if let Some(r) = l.strip_prefix("mem::clone(") {
+            let mut it = r.trim_end_matches(')').split(',').map(|x| x.trim());
+            let (d, s_) = (it.next().unwrap_or(""), it.next().unwrap_or(""));
+            push(format!("{}>{}/r", ptr(ptrs, s_), ptr(ptrs, d)));
+        } else if let Some(r) = l.strip_prefix("mem::copy(") {
+            let mut it = r.trim_end_matches(')').split(',').map(|x| x.trim());
+            let (d, s_, n) = (it.next().unwrap_or(""), it.next().unwrap_or(""), it.next().unwrap_or(""));
+            push(format!("{}>{}#{n}", ptr(ptrs, s_), ptr(ptrs, d)));
+        } else if let Some(r) = l.strip_prefix("::generated::clone_") {
+            let args = r.split('(').nth(1).unwrap_or("").trim_end_matches(')');
+            let mut it = args.split(',').map(|x| x.trim());
+            let (d, s_) = (it.next().unwrap_or(""), it.next().unwrap_or(""));
+            push(format!("{}>{}/g", ptr(ptrs, s_), ptr(ptrs, d)));
+        } else if l.starts_with("return") || l.is_empty() || l.contains("mem::read(") || l.starts_with("mem::write($return,")
+            || (l.starts_with('$') && l.contains(": ") && !l.contains('=')) {
+        } else {
+            // anything else inside a glue function is outside the model
+            push(format!("?{l}"));
         }
     }
-    Ok(out)
+    Ok((drops, clones))
 }
 
 /// `D<i> v<k>: …` groups of the model's answer → per declaration the list of variant strings
@@ -457,8 +489,11 @@ fn parse_shallow(ans: &str) -> std::collections::BTreeMap<usize, Vec<String>> {
     let mut m: std::collections::BTreeMap<usize, Vec<String>> = Default::default();
     for g in ans.split(" ; ") {
         let Some((head, body)) = g.split_once(':') else { continue };
-        let Some(d) = head.trim().strip_prefix('D').and_then(|h| h.split(' ').next()).and_then(|d| d.parse::<usize>().ok()) else { continue };
-        m.entry(d).or_default().push(body.trim().to_string());
+        let head = head.trim();
+        // drop functions under 2*decl, clone functions under 2*decl + 1
+        let odd = if head.starts_with('C') { 1 } else { 0 };
+        let Some(d) = head.get(1..).and_then(|h| h.split(' ').next()).and_then(|d| d.parse::<usize>().ok()) else { continue };
+        m.entry(2 * d + odd).or_default().push(body.trim().to_string());
     }
     m
 }
@@ -534,16 +569,22 @@ fn one_case_glue(rep: &mut Report, drv: &mut Driver, src: &str, ret: Ret, origin
             model_says = Some(ans);
         }
         let shallow = parse_shallow(&drv.ask(&format!("c03 glue-shallow {}", nums_line(nums))));
-        match lir_drop_functions(src) {
-            Ok(fns) => {
-                for (d, variants) in &shallow {
-                    if !reach.get(*d).copied().unwrap_or(false) || variants.iter().all(|v| v.is_empty()) {
+        match lir_glue_functions(src) {
+            Ok((dfns, cfns)) => {
+                for (key, variants) in &shallow {
+                    let (d, is_clone) = (key / 2, key % 2 == 1);
+                    // a function is generated for a declaration that is part of the value and
+                    // holds something to drop (otherwise it is memcpy'd / ignored by the caller)
+                    let droppable = shallow.get(&(2 * d)).is_some_and(|v| v.iter().any(|x| !x.is_empty()));
+                    if !reach.get(d).copied().unwrap_or(false) || !droppable {
                         continue;
                     }
                     rep.evaluations += 1;
+                    let fns = if is_clone { &cfns } else { &dfns };
                     if !fns.iter().any(|f| f == variants) {
                         rep.mismatch(
-                            &format!("no generated drop function in the LIR performs what the model computes for declaration {} ({}): the model of drops.rs is not faithful", d, variants.join(" | ")),
+                            &format!("no generated {} function in the LIR performs what the model computes for declaration {} ({}): the model of {} is not faithful",
+                                if is_clone { "clone" } else { "drop" }, d, variants.join(" | "), if is_clone { "clones.rs" } else { "drops.rs" }),
                             json!({"script": src, "origin": origin, "model": variants, "lir": fns}));
                     }
                 }
@@ -934,11 +975,12 @@ fn main() {
             let timeout = std::time::Duration::from_secs(30);
             // 1. the table (witnesses first)
             let nt = table().len() as u64;
-            rotov_harness::worker::run_batches(&["table", "0", "0"], nt, 4, timeout, &mut rep,
+            // one process per representative: a crash must not swallow the verdicts of its neighbours
+            rotov_harness::worker::run_batches(&["table", "0", "0"], nt, 1, timeout, &mut rep,
                 |rep, idx, ended| on_crash(rep, "table", 0, 0, idx, ended));
             // 1b. drop/clone glue: the class representatives of declared types
             let ng = glue::table().len() as u64;
-            rotov_harness::worker::run_batches(&["gtable", "0", "0"], ng, 5, timeout, &mut rep,
+            rotov_harness::worker::run_batches(&["gtable", "0", "0"], ng, 1, timeout, &mut rep,
                 |rep, idx, ended| on_crash(rep, "gtable", 0, 0, idx, ended));
             // 2. the repository's own scripts
             run_corpus(&mut rep, &repo);
